@@ -245,7 +245,9 @@ pub fn main(args: Vec<String>) -> i32 {
                 return 2;
             };
             crate::task::loomh_runner::install_hooks();
-            explore(bound, 100_000, cap_secs, move || crate::task::loomh_runner::body(&s))
+            let o = explore(bound, 100_000, cap_secs, move || crate::task::loomh_runner::body(&s));
+            crate::task::loomh_runner::cleanup();
+            o
         }
         "fancy" => {
             let Some(s) = crate::progress_fancy::loomh_fancy::Scenario::parse(&scn) else {
